@@ -7,8 +7,8 @@ from lib import tracked, noisefake
 from lib.probes import Probe
 
 PID = "C12"
-GEN = ["lockcfg", "sendnumbering", "lockregions"]
-LEAN_MODULES = ["YowsupVerif.Props.C12", "YowsupVerif.Props.C12Seg", "YowsupVerif.Props.C12Numbering", "YowsupVerif.Props.C12Regions"]
+GEN = ["lockcfg", "sendnumbering", "lockregions", "segsrc"]
+LEAN_MODULES = ["YowsupVerif.Props.C12", "YowsupVerif.Props.C12Seg", "YowsupVerif.Props.C12SegSrc", "YowsupVerif.Props.C12Numbering", "YowsupVerif.Props.C12Regions"]
 RULE = ("operation sequences of length 2..7 on the real default stack [bottom probe, segments, noise (real protocol state machine, tagging "
         "transport), coder, logger, axolotl control, (axolotl send|receive), (protocol layers), top probe]: fault-free send / receive, and the "
         "property's own failure kinds at every layer position — down: unencodable value (coder raises), oversized frame (segment layer's size "
